@@ -30,5 +30,5 @@ Proof.
 Qed.
 
 (* the finite domain contains networks where the adjustment set is non-empty and the query non-trivial *)
-Lemma grid_nonempty : length (grid_bns 2) = 63 /\ length (all_dags 3) = 25.
+Lemma grid_nonempty : length (grid_bns 2) = 20 /\ length (all_dags 3) = 25.
 Proof. split; vm_compute; reflexivity. Qed.
